@@ -12,9 +12,17 @@
 //             uninitialised output vector; kind 3: backend::sum, pointwise_matrix, unblock_matrix, crs copy / assignment,
 //             numa_vector::resize — the arrays they return are compared across the fills
 // Every case is tagged with the keys of the uninitialised allocation sites (tools/alloc_sites.py) it ran through.
+//      phist  <same arguments as papply>    ONE preconditioner object, double precision: apply(f) -> a; apply(2^47 * g);
+//             apply(a vector holding NaN and Inf); apply(f) -> b.  The object's persistent work vectors (level scratch,
+//             Chebyshev p/r, ...) have then seen huge and non-finite values: b must equal a BITWISE (C02: B is one fixed
+//             operator independent of earlier applications; C15: no state leaks between calls).  Rounding-level leaks
+//             (a coefficient that is zero only in exact arithmetic) are invisible at the exact type Q — this op is the
+//             floating-point side.  Built with -DPIPE_HIST_ONLY the harness generates only these ops (checks C02, C15).
 // The values are small dyadic rationals, converted to double exactly.  Implementation-only harness (no model line).
 #include "poison.hpp"      // replaced operator new (fill patterns) + allocation-site tracker; must come first
 #include "gen.hpp"
+#include <limits>
+#include <cmath>
 
 #include <amgcl/amg.hpp>
 #include <amgcl/make_solver.hpp>
@@ -225,6 +233,42 @@ static Result execute_pcomp(const Toks &t) {
     return r;
 }
 
+static Result execute_phist(const Toks &t) {
+    Cur c(t); PCase k; k.cls = c.nat(); k.c = c.nat(); k.r = c.nat(); k.ce = c.nat(); k.ml = c.nat(); k.dc = c.nat(); k.A = c.mat(); k.f = c.vec(); k.extra = read_extra(c); c.expect_end();
+    std::string why; if (!crs_wf(*k.A.crs(), why) || k.A.n != k.A.m || (long)k.f.size() != k.A.n) throw bad_input("shape");
+    if (k.cls < 0 || k.cls > 2 || k.c < 0 || k.c > 3 || k.r < 0 || k.r > 8 || k.ml < 1) throw bad_input("enum");
+    Result r; const long n = k.A.n;
+    std::vector<ptrdiff_t> ptr(k.A.ptr), col(k.A.col); std::vector<double> val(k.A.val.size()), rhs(n);
+    for (size_t i = 0; i < val.size(); ++i) val[i] = k.A.val[i].v.get_d();
+    for (long i = 0; i < n; ++i) rhs[i] = k.f[i].v.get_d();
+    boost::property_tree::ptree prm;
+    prm.put("class", pclasses[k.cls]);
+    if (k.cls == 0) { prm.put("coarsening.type", coarsenings[k.c]); prm.put("relax.type", relaxations[k.r]); prm.put("coarse_enough", k.ce); prm.put("max_levels", k.ml); prm.put("direct_coarse", k.dc != 0); }
+    else if (k.cls == 1) prm.put("type", relaxations[k.r]);
+    for (auto &kv : k.extra) {
+        if (!kv.first.compare(0, 7, "solver.")) continue;
+        if (k.cls == 0) prm.put(kv.first, kv.second);
+        else if (k.cls == 1 && !kv.first.compare(0, 6, "relax.")) prm.put(kv.first.substr(6), kv.second);
+    }
+    std::string tag = "ok"; bool same_ab = true, finite = true;
+    try {
+        RPrecond P(std::tie(k.A.n, ptr, col, val), prm);
+        std::vector<double> a(n, 0.0), b(n, 0.0), y(n, 0.0), g(n), bad(n);
+        for (long i = 0; i < n; ++i) { g[i] = std::ldexp(rhs[(i * 7 + 3) % n] + 0.3 * (double)((i % 5) - 2), 47); bad[i] = (i % 3 == 0) ? std::numeric_limits<double>::quiet_NaN() : (i % 3 == 1) ? std::numeric_limits<double>::infinity() : -1.0; }
+        P.apply(rhs, a);
+        P.apply(g, y);
+        P.apply(bad, y);
+        P.apply(rhs, b);
+        for (long i = 0; i < n; ++i) if (!std::isfinite(a[i])) finite = false;
+        same_ab = n == 0 || !std::memcmp(a.data(), b.data(), 8 * n);
+    } catch (const amgcl::error::empty_level&) { tag = "empty_level"; }
+    catch (const std::exception &e) { tag = "exception"; }
+    if (tag == "ok" && !same_ab) r.fail(std::string("double precision: apply(f) on ONE object differs bitwise before and after applications to a huge and to a non-finite right-hand side: state leaks between applications (") + pclasses[k.cls] + "/" + coarsenings[k.c] + "/" + relaxations[k.r] + ")");
+    r.out = tag; r.nontrivial = tag == "ok" && n > 1 && finite; r.tag("phist").tag(pclasses[k.cls]).tag(relaxations[k.r]).tag(tag);
+    if (!k.extra.empty()) r.tag("nondefault_params");
+    return r;
+}
+
 static Result execute_papply(const Toks &t) {
     Cur c(t); PCase k; k.cls = c.nat(); k.c = c.nat(); k.r = c.nat(); k.ce = c.nat(); k.ml = c.nat(); k.dc = c.nat(); k.A = c.mat(); k.f = c.vec(); k.extra = read_extra(c); c.expect_end();
     std::string why; if (!crs_wf(*k.A.crs(), why) || k.A.n != k.A.m || (long)k.f.size() != k.A.n) throw bad_input("shape");
@@ -241,6 +285,7 @@ static Result execute_papply(const Toks &t) {
 static Result execute(const Toks &t) {
     if (t[0] == "papply") return execute_papply(t);
     if (t[0] == "pcomp") return execute_pcomp(t);
+    if (t[0] == "phist") return execute_phist(t);
     Cur c(t); if (t[0] != "pipe") return Result("bad-op");
     Case k; k.c = c.nat(); k.r = c.nat(); k.s = c.nat(); k.ce = c.nat(); k.ml = c.nat(); k.dc = c.nat(); k.npre = c.nat(); k.npost = c.nat(); k.ncycle = c.nat(); k.maxiter = c.nat();
     k.A = c.mat(); k.f = c.vec(); k.extra = read_extra(c); c.expect_end();
@@ -328,8 +373,24 @@ static void emit(std::vector<std::string> &lines, Rng &rng, const Mat &A, long c
     lines.push_back(l.get());
 }
 
+static void gen_phist(Rng &rng, const Opts &o, std::vector<std::string> &lines, long count) {
+    static const std::vector<long> ces = { 0, 1, 2, 4, 3000 }; static const std::vector<long> mls = { 1, 2, 3, 10 };
+    for (long k = 0; k < count; ++k) {
+        long n = rng.range(2, o.thorough() ? 60 : 36);
+        // anisotropic / weighted grids and random graphs: many different spectral bounds (centres d with fl(fl(1/d)*d) != 1)
+        Mat A = rng.coin(1, 5) ? gen_convdiff(rng, n) : dyadic_spd(rng, n, (int)rng.range(0, 3));
+        long cls = rng.coin(3, 4) ? 0 : 1, c = rng.range(0, 3), r = k % 9;
+        Line l; l << "phist" << cls << c << r << rng.pick(ces) << rng.pick(mls) << rng.coin(3, 4) << A << gen_vec(rng, A.n, true);
+        if (rng.coin()) put_extra(l, rng, cls == 0 ? c : -1, r, -1);
+        lines.push_back(l.get());
+    }
+}
+
 static void generate(Rng &rng, const Opts &o, std::vector<std::string> &lines) {
     long N = o.cases > 0 ? o.cases : (o.thorough() ? 1500 : 120);
+#ifdef PIPE_HIST_ONLY
+    gen_phist(rng, o, lines, 3 * N); return;
+#endif
     static const std::vector<long> ces = { 0, 1, 2, 4, 3000 }; static const std::vector<long> mls = { 1, 2, 3, 10 };
     // degenerate inputs (each with a few component combinations)
     std::vector<Mat> deg;
@@ -371,6 +432,7 @@ static void generate(Rng &rng, const Opts &o, std::vector<std::string> &lines) {
         Line l; l << "pcomp" << kind << B << A << gen_vec(rng, n, true);
         lines.push_back(l.get());
     }
+    gen_phist(rng, o, lines, N / 2);
     lines.push_back("pipe 9 0 0 2 10 1 1 1 1 5 1 1 1 0 2 1 1");      // unknown coarsening index
 }
 
